@@ -64,7 +64,7 @@ package parser
 
 //@ pred visitorOK(v *PacketDslVisitorImpl) := v != nil && model.modelOK(v.BinModel) && model.metaWF(v.BinModel)
 
-//@ pred attrOK(a model.FieldAttribute) := model.attrKind(a) && (typeis(a, *model.LengthFieldAttribute) ==> unbox(a, *model.LengthFieldAttribute).TragetField != nil) && (typeis(a, *model.MatchFieldAttribute) ==> unbox(a, *model.MatchFieldAttribute).MatchKeyField != nil) && (typeis(a, *model.ObjectFieldAttribute) ==> (unbox(a, *model.ObjectFieldAttribute).IsIner ==> unbox(a, *model.ObjectFieldAttribute).RefPacket != nil))
+//@ pred attrOK(a model.FieldAttribute) := model.attrKind(a) && (typeis(a, *model.FixedStringFieldAttribute) ==> 0 <= unbox(a, *model.FixedStringFieldAttribute).Length && unbox(a, *model.FixedStringFieldAttribute).Length <= 16777216) && (typeis(a, *model.MatchFieldAttribute) ==> len(unbox(a, *model.MatchFieldAttribute).MatchPairs) >= 1) && (typeis(a, *model.LengthFieldAttribute) ==> unbox(a, *model.LengthFieldAttribute).TragetField != nil) && (typeis(a, *model.MatchFieldAttribute) ==> unbox(a, *model.MatchFieldAttribute).MatchKeyField != nil) && (typeis(a, *model.ObjectFieldAttribute) ==> (unbox(a, *model.ObjectFieldAttribute).IsIner ==> unbox(a, *model.ObjectFieldAttribute).RefPacket != nil))
 //@ pred freshObj(x *model.Field) := fresh(x) && allocated(x)
 //@ pred freshAttr(a model.FieldAttribute) := (typeis(a, *model.ObjectFieldAttribute) ==> fresh(unbox(a, *model.ObjectFieldAttribute)) && allocated(unbox(a, *model.ObjectFieldAttribute))) && (typeis(a, *model.MatchFieldAttribute) ==> fresh(unbox(a, *model.MatchFieldAttribute)) && allocated(unbox(a, *model.MatchFieldAttribute))) && (typeis(a, *model.LengthFieldAttribute) ==> fresh(unbox(a, *model.LengthFieldAttribute)) && allocated(unbox(a, *model.LengthFieldAttribute)))
 //@ pred fieldOK(f *model.Field) := f != nil && fresh(f) && allocated(f) && attrOK(f.Attr) && freshAttr(f.Attr)
@@ -123,12 +123,15 @@ package parser
 
 //@ func (*PacketDslVisitorImpl).VisitMatchFieldDeclaration
 //@   ensures isField(result)
+//@   loop 0 invariant len(pairs) >= rangeindex + 1
 
 //@ func (*PacketDslVisitorImpl).VisitMatchPair
-//@   ensures typeis(result, []model.MatchPair)
+//@   ensures typeis(result, []model.MatchPair) && len(unbox(result, []model.MatchPair)) >= 1
+//@   loop 0 invariant len(pairs) == rangeindex + 1
+//@   loop 1 invariant len(pairs) >= entry(len(pairs)) && len(pairs) >= rangeindex + 1
 
 //@ func ParseFile
-//@   ensures err == nil ==> typeis(result0, *model.BinaryModel)
+//@   ensures result1 == nil ==> typeis(result0, *model.BinaryModel) && allocated(unbox(result0, *model.BinaryModel).PacketsMap)
 
 //@ methods (*SyntaxErrorListener)
 //@   requires self != nil
@@ -214,3 +217,8 @@ package parser
 //@ func (RustGenerator).testMatchValue
 //@   requires typeis(f.Attr, *model.MatchFieldAttribute) && unbox(f.Attr, *model.MatchFieldAttribute) == mf
 //@   decreases 3*rank(f)
+
+//@ func NewPythonGenerator
+//@   inline
+//@ func NewCppGenerator
+//@   inline
